@@ -41,7 +41,7 @@ pub fn check(tier: Tier) -> Check {
         also_rel: false,
         property: "C06",
         level: "model_checking",
-        rule: "all event sequences over publishes (QoS 0/1/2 x retain x 2 topics/payloads), every legal PUBACK/PUBREC/PUBCOMP reason code, a ping interleaved, delayed polls of the publish future (also between the QoS 2 phases) and partial/pending writes as deviations; non-trivial = a QoS>0 handshake was completed or failed".into(),
+        rule: "all event sequences over publishes (QoS 0/1/2 x retain x 2 topics/payloads, and one carrying every optional PUBLISH property with a 300-byte payload), every legal PUBACK/PUBREC/PUBCOMP reason code, a ping interleaved, delayed polls of the publish future (also between the QoS 2 phases) and partial/pending writes as deviations; non-trivial = a QoS>0 handshake was completed or failed".into(),
         assumptions: vec!["conformant broker".into()],
         parts,
     }
@@ -72,7 +72,23 @@ pub fn scenario(name: &str, params: &Value) -> Scenario {
         if all_reasons {
             sys.set_write_mode(WriteMode::Explore);
         }
-        let specs = pub_specs();
+        let mut specs = pub_specs();
+        if all_reasons {
+            // a publish carrying every optional property and a payload that needs a two-byte
+            // remaining length: "the requested ... topic/payload" includes everything the caller set
+            for q in 0..3u8 {
+                let mut s = PublishSpec::simple(q, "t/rich", &[0x5a; 300]);
+                s.retain = Some(q == 1);
+                s.pfi = Some(true);
+                s.topic_alias = Some(7);
+                s.expiry = Some(3600);
+                s.correlation = Some(vec![0xc0, 0xff, 0xee]);
+                s.response_topic = Some("re/ply".into());
+                s.content_type = Some("text/plain".into());
+                s.user_props = vec![("k".into(), "v".into()), ("k".into(), "w".into())];
+                specs.push(OpSpec::Publish(s));
+            }
+        }
         let devs = |s: &Sys| sched_deviations(s, false, false);
         let evs = |s: &Sys| {
             let mut e = vec![];
